@@ -233,18 +233,20 @@ theorem aggregateStatus_active (l : List TStatus) :
 theorem leafStatus_active (c : Bool) (l : Launch) : leafStatus c l = .ACTIVE ↔ l = .ok := by
   cases l <;> cases c <;> simp [leafStatus]
 
-/-- DEPLOY succeeds iff there is at least one role and EVERY task — critical or not — became active. -/
-theorem deployBody_ok (ls : List (Bool × Launch)) (calls : Nat) :
-    deployBody ls calls = .ok ↔ (ls ≠ [] ∨ calls ≠ 0) ∧ ∀ l ∈ ls, l.2 = .ok := by
+/-- DEPLOY succeeds iff there is at least one role, EVERY task — critical or not — became active, and the
+    notification was not dropped. -/
+theorem deployBody_ok (ls : List (Bool × Launch)) (calls : Nat) (lost : Bool) :
+    deployBody ls calls lost = .ok ↔ lost = false ∧ (ls ≠ [] ∨ calls ≠ 0) ∧ ∀ l ∈ ls, l.2 = .ok := by
   unfold deployBody rootStatus
   have : (if aggregateStatus (ls.map (fun l => leafStatus l.1 l.2) ++ List.replicate calls TStatus.ACTIVE) = TStatus.ACTIVE
-          then BodyRes.ok else BodyRes.error) = BodyRes.ok ↔
-      aggregateStatus (ls.map (fun l => leafStatus l.1 l.2) ++ List.replicate calls TStatus.ACTIVE) = TStatus.ACTIVE := by
+            ∧ lost = false then BodyRes.ok else BodyRes.error) = BodyRes.ok ↔
+      (aggregateStatus (ls.map (fun l => leafStatus l.1 l.2) ++ List.replicate calls TStatus.ACTIVE) = TStatus.ACTIVE
+        ∧ lost = false) := by
     split <;> simp_all
   rw [this, aggregateStatus_active]
   constructor
-  · rintro ⟨hne, hall⟩
-    refine ⟨?_, ?_⟩
+  · rintro ⟨⟨hne, hall⟩, hl⟩
+    refine ⟨hl, ?_, ?_⟩
     · cases ls with
       | cons _ _ => exact Or.inl (by simp)
       | nil =>
@@ -254,8 +256,8 @@ theorem deployBody_ok (ls : List (Bool × Launch)) (calls : Nat) :
     · intro l hl
       have := hall (leafStatus l.1 l.2) (List.mem_append_left _ (List.mem_map.2 ⟨l, hl, rfl⟩))
       exact (leafStatus_active _ _).1 this
-  · rintro ⟨hne, hall⟩
-    refine ⟨?_, ?_⟩
+  · rintro ⟨hl, hne, hall⟩
+    refine ⟨⟨?_, ?_⟩, hl⟩
     · rcases hne with h | h
       · simp [h]
       · simp [h]
